@@ -170,6 +170,9 @@ class WriteAheadLog(Entity):
         self._last_sync_time_s: float = 0.0
         self._synced_up_to_sequence: int = 0
 
+        # Nanosecond timestamp at which the latest fsync started so far completes
+        self._sync_busy_until_ns: int = 0
+
         # Number of crash() calls; lets an append suspended on I/O notice
         # that power was lost while it was waiting
         self._crash_count: int = 0
@@ -234,6 +237,7 @@ class WriteAheadLog(Entity):
         # Check sync policy
         time_since_sync = self.now.to_seconds() - self._last_sync_time_s
         if self._sync_policy.should_sync(self._writes_since_sync, time_since_sync):
+            self._sync_busy_until_ns = (self.now + self._sync_latency).nanoseconds
             yield self._sync_latency
             if crash_count != self._crash_count:
                 # Power was lost mid-fsync: this sync never completed, so it
@@ -244,6 +248,13 @@ class WriteAheadLog(Entity):
             self._total_sync_latency_s += self._sync_latency
             self._writes_since_sync = 0
             self._last_sync_time_s = self.now.to_seconds()
+        elif self.now.nanoseconds < self._sync_busy_until_ns:
+            # An earlier entry is still being fsynced. Appends complete in log
+            # order (callers apply a write when its append returns), so queue
+            # behind that fsync without claiming durability for this entry.
+            # The half nanosecond keeps the float delay from truncating short.
+            remaining_ns = self._sync_busy_until_ns - self.now.nanoseconds
+            yield (remaining_ns + 0.5) / 1_000_000_000
 
         return seq
 
